@@ -46,3 +46,28 @@ def patched(script: Script):
         yield script
     finally:
         pl.matrix_inverse_root, pl.matrix_eigenvectors = real_root, real_eig
+
+
+@contextlib.contextmanager
+def patched_keyed(decide):
+    """decide(routine, A, estimate) -> "ok" | "fail" | "nan": the harness identifies the factor the call is for."""
+    import distributed_shampoo.utils.shampoo_preconditioner_list as pl
+    real_root, real_eig = pl.matrix_inverse_root, pl.matrix_eigenvectors
+
+    def wrap(real, name):
+        def f(*a, **kw):
+            A = kw.get("A", a[0] if a else None)
+            est = kw.get("eigenvectors_estimate")
+            out = decide(name, A, est)
+            if out == "fail":
+                raise InjectedFailure("injected failure")
+            if out == "nan":
+                return torch.full_like(A, float("nan"))
+            return real(*a, **kw)
+        return f
+    pl.matrix_inverse_root = wrap(real_root, "root")
+    pl.matrix_eigenvectors = wrap(real_eig, "eig")
+    try:
+        yield
+    finally:
+        pl.matrix_inverse_root, pl.matrix_eigenvectors = real_root, real_eig
